@@ -89,8 +89,12 @@ def lower_if(case, D, patches, env, C04):
     """kernels of TerminalExpr(LogicalExpr(form, D), D.logical_domain): [(type, target, tags, sympy expression)]"""
     from sympde.expr import TerminalExpr, integral, LinearForm, BilinearForm
     from sympde.topology.mapping import LogicalExpr
-    from sympde.topology import ScalarFunctionSpace, element_of, NormalVector
-    V = ScalarFunctionSpace("V", D)
+    from sympde.topology import ScalarFunctionSpace, VectorFunctionSpace, element_of, NormalVector
+    kind = case.get("kind")            # None = H1 scalar (as before); "l2" scalar; with "vec": "hdiv" | "hcurl" | "h1" | "l2"
+    if case.get("vec"):
+        V = VectorFunctionSpace("V", D, kind=kind)
+    else:
+        V = ScalarFunctionSpace("V", D, kind=kind)
     u, v = element_of(V, "u"), element_of(V, "v")
     ctx = {"u": u, "v": v, "nn": NormalVector("nn"), "g": ser.build_sx(case["integrand"], env)}
     R = C04.region_of(case, D, patches)
@@ -106,8 +110,17 @@ def lower_if(case, D, patches, env, C04):
         tags = None
         if typ == "interface":
             tags = [side_tag(k.trial), side_tag(k.test)]
-        out.append({"type": typ, "target": C04.ser_target(k.target), "tags": tags, "expr": C04.kernel_expr(k)})
+        e = k.expr
+        if isinstance(e, (sp.Matrix, sp.ImmutableDenseMatrix)) and e.shape != (1, 1):
+            # vector trial / test functions: entry (i, j) keeps the terms with (v_i, u_j); the form is their sum
+            e = sum(list(e), sp.S.Zero)
+        else:
+            e = C04.kernel_expr(k)
+        out.append({"type": typ, "target": C04.ser_target(k.target), "tags": tags, "expr": e})
     return out
+
+
+APPROX = [False]       # set by prep_kernel when a float literal had to be approximated / taken with its binary value
 
 
 def prep_kernel(e):
@@ -123,8 +136,13 @@ def prep_kernel(e):
     frep = {}
     for f in e.atoms(sp.Float):
         r = sp.nsimplify(f, rational=True)
-        if abs(r.q) > 10 ** 6 or abs(float(r) - float(f)) > 1e-14 * max(1.0, abs(float(f))):
-            raise ser.Unsupported("float literal")
+        if abs(r.q) > 10 ** 6:
+            # a float produced from the FLOAT bounds of a non-unit patch (x1 = 1.5 -> 0.1092896.. = 20/183): the simplest
+            # rational within the rounding error when there is a short one, else the exact binary value; the comparison of
+            # this output is then made with a relative tolerance of 1e-9 instead of 1e-25 (APPROX)
+            r2 = sp.nsimplify(f, rational=True, tolerance=1e-13)
+            r = r2 if abs(r2.q) <= 10 ** 6 else r
+            APPROX[0] = True
         frep[f] = r
     if frep:
         e = e.xreplace(frep)
@@ -136,6 +154,15 @@ def iface_of(case):
     c = case["connectivity"][case["region"]["k"]]
     (im, ax, em), (ip, ax2, ep) = c[0], c[1]
     return im, ax, em, ip, ax2, ep
+
+
+def face_coord(case, i, ax, e):
+    """value of the logical coordinate x_ax of patch i on its face of side e (0 / 1 for the unit cube)"""
+    b = case["patches"][i].get("bounds")
+    if not b:
+        return sp.Integer(1 if e == 1 else 0)
+    lo, hi = b[ax]
+    return sp.Rational(*(hi if e == 1 else lo))
 
 
 def ornt_of(case):
@@ -187,7 +214,7 @@ def analytic_map(M, base):
 def matched_maps(rng, case, maps, base):
     d = case["ldim"]
     im, ax, em, ip, _, ep = iface_of(case)
-    bm, bp = (1 if em == 1 else 0), (1 if ep == 1 else 0)
+    bm, bp = face_coord(case, im, ax, em), face_coord(case, ip, ax, ep)
     kinds = [p["mapping"]["kind"] for p in case["patches"]]
     Fs = {}
     for i, (p, M) in enumerate(zip(case["patches"], maps)):
@@ -214,10 +241,14 @@ class Parts:
         self.rng, self.d = rng, d
         self.polys = {}
         self.zero = set()
+        self.vec = False
+        self.kind = None
 
-    def poly(self, f, s):
+    def poly(self, f, s, comp=0):
         if (f, s) in self.zero:
             return sp.S.Zero
+        if comp:
+            return self.poly("%s#%d" % (f, comp), s)
         if (f, s) not in self.polys:
             r = self.rng
             p = Rational(r.randint(1, 5))
@@ -254,6 +285,8 @@ def phys_ix(j, P, g, d, side=None):
         s = j["s"] if j["s"] != "0" else side
         if s is None:
             raise Ambiguous("a function without restriction in an interface integrand")
+        if P.vec:
+            return [P.poly(j["f"], s, i + 1) for i in range(d)]
         return P.poly(j["f"], s)
     if k == "grad":
         a = phys_ix(j["a"], P, g, d, side)
@@ -317,6 +350,7 @@ class KernelValue:
         self.frames, self.side_of_patch, self.nsign = frames, side_of_patch, normal_sign
         self.byname = {p["mapping"]["name"]: i for i, p in enumerate(case["patches"])}
         self.d = case["ldim"]
+        self._cache = {}
 
     def in_frame(self, e, i):
         syms = self.frames[i]
@@ -354,8 +388,6 @@ class KernelValue:
         if t == "fld":
             if any(a["al"]) and not a["lg"]:
                 raise ser.Unsupported("physical derivative left in the logical kernel")
-            if a["c"] != 0:
-                raise ser.Unsupported("vector component")
             if a["s"] == "0":
                 if len(self.frames) != 1:
                     raise RestrictionLost("the function %s appears without restriction in a kernel over the interface" % a["f"])
@@ -364,12 +396,35 @@ class KernelValue:
             else:
                 s = a["s"]
                 i = self.patch_of_side(s)
-            p = self.P.poly(a["f"], s).subs(list(zip(XS[:d], self.Fs[i])), simultaneous=True)     # u_s o F_s
+            p = self.logical_unknown(a["f"], a["c"], s, i)
             for k, n in enumerate(a["al"]):
                 for _ in range(n):
                     p = sp.diff(p, LS[k])
             return self.in_frame(p, i)
         raise ser.Unsupported("atom " + t)
+
+    def logical_unknown(self, f, c, s, i):
+        """the logical unknown of side s (patch i), DEFINED from the physical polynomials by the pull-back of its kind
+        with the mapping of that patch: H1 u o F; L2 det J (u o F); H(curl) J^T (u o F); H(div) det J J^-1 (u o F)"""
+        d, P = self.d, self.P
+        F = self.Fs[i]
+        comp = lambda q: q.subs(list(zip(XS[:d], F)), simultaneous=True)  # noqa
+        key = (f, s, i)
+        if key not in self._cache:
+            J = sp.Matrix([[sp.diff(F[a], LS[b]) for b in range(d)] for a in range(d)])
+            det = J.det()
+            kind = P.kind
+            if not P.vec:
+                v0 = comp(P.poly(f, s))
+                self._cache[key] = [det * v0 if kind == "l2" else v0]
+            else:
+                U = sp.Matrix([comp(P.poly(f, s, a + 1)) for a in range(d)])
+                L = {"hcurl": J.T * U, "hdiv": det * (J.inv() * U), "l2": det * U}.get(kind, U)
+                self._cache[key] = [None] + [L[a] for a in range(d)]
+        vals = self._cache[key]
+        if (c == 0) != (not P.vec):
+            raise ser.Unsupported("scalar / vector mismatch of %s" % f)
+        return vals[c]
 
     def sx(self, j):
         k = j["k"]
@@ -394,9 +449,10 @@ def oracle_if(case, kernels, maps):
     d = case["ldim"]
     base = ser.Concrete(rng, dim=3)
     im, ax, em, ip, _, ep = iface_of(case)
-    bm, bp = (1 if em == 1 else 0), (1 if ep == 1 else 0)
+    bm, bp = face_coord(case, im, ax, em), face_coord(case, ip, ax, ep)
     Fs = matched_maps(rng, case, maps, base)
     P = Parts(rng, d)
+    P.vec, P.kind = bool(case.get("vec")), case.get("kind")
     names = [p["name"] for p in case["patches"]]
     g = ser.Concrete.sx(base, case["integrand"], False) if case.get("integrand") else sp.S.One
     bil = case["form"] == "bilinear"
@@ -447,8 +503,8 @@ def oracle_if(case, kernels, maps):
     for _ in range(npts):
         t = {j: Rational(rng.randint(1, 9), rng.randint(10, 13)) for j in cols}
         flip = ornt_of(case) == -1
-        xm = {LS[j]: t[j] for j in cols}; xm[LS[ax]] = sp.Integer(bm)
-        xp = {LS[j]: (1 - t[j] if flip else t[j]) for j in cols}; xp[LS[ax]] = sp.Integer(bp)
+        xm = {LS[j]: t[j] for j in cols}; xm[LS[ax]] = sp.sympify(bm)
+        xp = {LS[j]: (1 - t[j] if flip else t[j]) for j in cols}; xp[LS[ax]] = sp.sympify(bp)
         nv = {n: Rational(rng.randint(-5, 5) or 1, rng.randint(2, 6)) for n in NS}
         pm = [f.xreplace(xm) for f in Fs[im]]
         pp = [f.xreplace(xp) for f in Fs[ip]]
@@ -505,7 +561,7 @@ def oracle_if(case, kernels, maps):
                 break
             with mpmath.workdps(50):
                 dlt = abs(got - ref) / max(1, abs(got), abs(ref))
-            if dlt > mpmath.mpf(10) ** (-25):
+            if dlt > mpmath.mpf(10) ** (-9 if case.get("_approx") else -25):
                 ok = False
                 info = {"point_minus": {str(a): str(b) for a, b in xm.items()}, "point_plus": {str(a): str(b) for a, b in xp.items()},
                         "kernel_value": mpmath.nstr(got, 25), "required_value": mpmath.nstr(ref, 25),
@@ -535,6 +591,7 @@ def run_if_case(case, C04):
         res["where"] = ["%s:%d %s" % (f.filename.split("/")[-1], f.lineno, f.name) for f in tb[-3:]]
         return res
     out = []
+    APPROX[0] = False
     for k in ks:
         try:
             sx = ser.ser_sx(prep_kernel(k["expr"]))
@@ -555,7 +612,8 @@ def run_if_case(case, C04):
                 fm[p["mapping"]["name"]] = None
     res["fm"] = fm
     try:
-        res["oracle"] = oracle_if(case, out, maps)
+        res["approx_floats"] = APPROX[0]
+        res["oracle"] = oracle_if(dict(case, _approx=APPROX[0]), out, maps)
     except Exception as e:  # noqa
         res["oracle"] = {"failed": "%s: %s" % (type(e).__name__, str(e)[:200]), "tb": traceback.format_exc()[-800:]}
     return res
